@@ -218,16 +218,19 @@ def bondSq (o : Ops α) (st : Setting α) (state : List (Root α)) : Out α :=
 
 /-! ### `OxygenOxygenSeparationOutputHandler.write` -/
 
+/-- loop body: `print(vectors.norm(separation_vector(first_oxygen_position, oxygen_positions[second_index])), file=self._file)` -/
+def ooEntryWith (o : Ops α) (root : α → α) (st : Setting α) (p : Leaf α × Leaf α) : Out α :=
+  match st.box.sepVec o p.1.pos p.2.pos with
+  | none => ([], some "err:IndexError")
+  | some v => ([(0, [root (normSq o v)])], none)
+
 def oxygenOxygenWith (o : Ops α) (root : α → α) (st : Setting α) (state : List (Root α)) : Out α :=
   -- `assert all(len(root_cnode.children) == 3 for root_cnode in extracted_global_state)`
   if !(state.all fun r => r.children.length == 3) then ([], some "err:AssertionError")
   else
     -- `oxygen_positions = [root_cnode.children[1].value.position …]`; pairs `first_index < second_index`
     let oxy := state.filterMap fun r => r.children[1]?
-    collect (fun (p : Leaf α × Leaf α) =>
-      match st.box.sepVec o p.1.pos p.2.pos with
-      | none => ([], some "err:IndexError")
-      | some v => ([(0, [root (normSq o v)])], none)) (crossPairs (oxy.map fun x => [x]))
+    collect (ooEntryWith o root st) (crossPairs (oxy.map fun x => [x]))
 
 /-- the lines `OxygenOxygenSeparationOutputHandler.write(state)` prints -/
 def oxygenOxygen (oo : OOps α) (st : Setting α) (state : List (Root α)) : Out α :=
